@@ -118,8 +118,9 @@ func (y *Yaml) Int() (int, error) {
 		return -1, errors.New("not node found")
 	}
 	if y.data.Kind == yaml.ScalarNode && y.data.Tag == "!!int" {
-		i, e := strconv.Atoi(y.data.Value)
-		if e == nil {
+		// the node is a YAML integer in any of its spellings (5, +5, 0x5, 0o5): let the YAML library read it
+		var i int
+		if e := y.data.Decode(&i); e == nil {
 			return i, nil
 		}
 		return -1, errors.New(fmt.Sprintf("error in int conversion of parsed int at [%d,%d]", y.data.Line, y.data.Column))
